@@ -112,6 +112,7 @@ STUB_SETS = {
                 "crate::multi::MultiState::mark_zombie, crate::draw_target::verif_rig_dt::no_multi_mark_zombie"],
     "nontty": ["console::Term::is_term, crate::draw_target::verif_rig_dt::nontty_is_term",
                "console::Term::size, crate::draw_target::verif_rig_dt::nontty_size",
+               "console::TermFeatures::is_attended, crate::draw_target::verif_rig_dt::nontty_attended",
                "console::Term::write_line, crate::draw_target::verif_rig_dt::term_out_str",
                "console::Term::write_str, crate::draw_target::verif_rig_dt::term_out_str",
                "console::Term::clear_line, crate::draw_target::verif_rig_dt::term_out0",
